@@ -141,17 +141,18 @@ class SyncedDict(SyncedCollection, MutableMapping):
                             self._validate({key: new_value})
                         self._data[key] = self._from_base(new_value, parent=self)
                     else:
-                        if new_value == existing:
+                        if _sc_resolver.get_type(existing) == "SYNCEDCOLLECTION":
+                            # Always merge into nested collections: equality
+                            # does not distinguish 1, 1.0 and True, so it
+                            # cannot be used to skip them.
+                            if new_value is not None:
+                                try:
+                                    existing._update(new_value)
+                                    continue
+                                except ValueError:
+                                    pass
+                        elif type(new_value) is type(existing) and new_value == existing:
                             continue
-                        if (
-                            _sc_resolver.get_type(existing) == "SYNCEDCOLLECTION"
-                            and new_value is not None
-                        ):
-                            try:
-                                existing._update(new_value)
-                                continue
-                            except ValueError:
-                                pass
 
                         # Fall through if the new value is not identical to the
                         # existing value and
